@@ -123,6 +123,7 @@ def be_gen_case(rng, facts):
         # is a frontend-side atomic read at processing time; asynchronous interleavings are covered by the model comparison
         # of the M-BE checks)
         c.poll(); c.poll()
+    c.mark_tail()
     for _ in range(30): c.poll()
     return c
 
